@@ -54,8 +54,8 @@ It3(items) == Min3({ it[2] : it \in items })
 Bad(items) == { it[1] : it \in { x \in items : x[2] = 0 } }
 
 (* values outside these bounds cannot be evaluated in 32 bits; they are outside every declared range anyway *)
-NmdInsane(n, M, Ds) == { <<"insane:n", 0>> : x \in {1} \ (IF n >= 1 /\ n <= 1024 THEN {1} ELSE {}) }
-                       \cup { <<"insane:m", 0>> : x \in {1} \ (IF M >= 1 /\ M <= 4096 THEN {1} ELSE {}) }
+If(cond, name) == IF cond THEN { <<name, 0>> } ELSE {}
+NmdInsane(n, M, Ds) == If(~(n >= 1 /\ n <= 1024), "insane:n") \cup If(~(M >= 1 /\ M <= 4096), "insane:m")
                        \cup { <<"insane:d" \o ToString(i), 0>> : i \in { j \in 1..Len(Ds) : ~(Ds[j] >= 1 /\ Ds[j] <= 8192) } }
 
 NmdRangesIt(d, r, n, M, Ds) ==
@@ -97,9 +97,8 @@ Ecp5Sane(ci, fb, Ds, Dfb) == /\ ci >= 1 /\ ci <= 1024 /\ fb >= 1 /\ fb <= 1024 /
                              /\ \A i \in 1..Len(Ds) : Ds[i] >= 1 /\ Ds[i] <= 8192
 
 Ecp5Insane(ci, fb, Ds, Dfb) ==
-     { <<"insane:clki_div", 0>> : x \in {1} \ (IF ci >= 1 /\ ci <= 1024 THEN {1} ELSE {}) }
-  \cup { <<"insane:clkfb_div", 0>> : x \in {1} \ (IF fb >= 1 /\ fb <= 1024 THEN {1} ELSE {}) }
-  \cup { <<"insane:fbk_div", 0>> : x \in {1} \ (IF Dfb >= 1 /\ Dfb <= 1024 THEN {1} ELSE {}) }
+  If(~(ci >= 1 /\ ci <= 1024), "insane:clki_div") \cup If(~(fb >= 1 /\ fb <= 1024), "insane:clkfb_div")
+  \cup If(~(Dfb >= 1 /\ Dfb <= 1024), "insane:fbk_div")
   \cup { <<"insane:d" \o ToString(i), 0>> : i \in { j \in 1..Len(Ds) : ~(Ds[j] >= 1 /\ Ds[j] <= 8192) } }
 
 Ecp5RangesIt(d, r, ci, fb, Ds, fbk, Dfb) ==
@@ -118,23 +117,27 @@ Ecp5MeetsIt(d, r, ci, fb, Ds, Dfb) ==
 Ecp5OkD(d, r, ci, K, i, D, lvl) ==
   /\ InIv(D, d.co)
   /\ Within3(r.fin * K, ci * D, F(r.outs[i]), MN(r.outs[i]), MD(r.outs[i]), ExactDiv(r.fin, ci)) >= lvl
-(* K = fb * D_fbk *)
-Ecp5Fbk(d, r, ci, K, lvl) ==
+(* K = fb * D_fbk.  With all outputs used the feedback divider is the divider of a requested output  *)
+(* j >= jmin (jmin = 1; jmin = 2 only serves to describe a refused request: is there a setting whose    *)
+(* feedback does not run through the first output)                                                  *)
+Ecp5Fbk(d, r, ci, K, lvl, jmin) ==
   IF NOut(r) < d.nmax
   THEN \E D \in d.co[1]..d.co[2] : K % D = 0 /\ InIv(K \div D, d.fb)
-  ELSE \E j \in 1..NOut(r) : \E D \in DivWin(r.fin * K, ci, r.outs[j]) :
+  ELSE \E j \in jmin..NOut(r) : \E D \in DivWin(r.fin * K, ci, r.outs[j]) :
           Ecp5OkD(d, r, ci, K, j, D, lvl) /\ K % D = 0 /\ InIv(K \div D, d.fb)
-Ecp5OkK(d, r, ci, K, lvl) ==
+Ecp5OkK(d, r, ci, K, lvl, jmin) ==
   /\ Vco3(d, r.vm, r.fin, K, ci, ExactDiv(r.fin, ci)) >= lvl
   /\ \A i \in 1..NOut(r) : \E D \in DivWin(r.fin * K, ci, r.outs[i]) : Ecp5OkD(d, r, ci, K, i, D, lvl)
-  /\ Ecp5Fbk(d, r, ci, K, lvl)
+  /\ Ecp5Fbk(d, r, ci, K, lvl, jmin)
 Ecp5KWin(d, r, ci) == Max2(1, VcoWinLo(d, r.vm, r.fin, ci)) .. VcoWinHi(d, r.vm, r.fin, ci, d.fb[2] * d.co[2])
-Ecp5OkCi(d, r, ci, lvl) == Pfd3(d, r.fin, ci) >= lvl /\ \E K \in Ecp5KWin(d, r, ci) : Ecp5OkK(d, r, ci, K, lvl)
-Ecp5Feas(d, r, lvl) == \E ci \in d.ci[1]..d.ci[2] : Ecp5OkCi(d, r, ci, lvl)
+Ecp5OkCi(d, r, ci, lvl, jmin) ==
+  Pfd3(d, r.fin, ci) >= lvl /\ \E K \in Ecp5KWin(d, r, ci) : Ecp5OkK(d, r, ci, K, lvl, jmin)
+Ecp5FeasJ(d, r, lvl, jmin) == \E ci \in d.ci[1]..d.ci[2] : Ecp5OkCi(d, r, ci, lvl, jmin)
+Ecp5Feas(d, r, lvl) == Ecp5FeasJ(d, r, lvl, 1)
 
 Ecp5Witness(d, r, lvl) ==
-  LET ci == CHOOSE ci \in d.ci[1]..d.ci[2] : Ecp5OkCi(d, r, ci, lvl)
-      K  == CHOOSE K \in Ecp5KWin(d, r, ci) : Ecp5OkK(d, r, ci, K, lvl)
+  LET ci == CHOOSE ci \in d.ci[1]..d.ci[2] : Ecp5OkCi(d, r, ci, lvl, 1)
+      K  == CHOOSE K \in Ecp5KWin(d, r, ci) : Ecp5OkK(d, r, ci, K, lvl, 1)
       (* prefer the dividers that make an output usable as feedback *)
       fbs == IF NOut(r) < d.nmax THEN {}
              ELSE { <<j, D>> \in (1..NOut(r)) \X (d.co[1]..d.co[2]) :
@@ -145,7 +148,7 @@ Ecp5Witness(d, r, lvl) ==
                                   ELSE CHOOSE D \in DivWin(r.fin * K, ci, r.outs[i]) : Ecp5OkD(d, r, ci, K, i, D, lvl)]
       Dfb == IF fbs # {} THEN fbsel[2] ELSE CHOOSE D \in d.co[1]..d.co[2] : K % D = 0 /\ InIv(K \div D, d.fb)
   IN [ci |-> ci, fb |-> K \div Dfb, d |-> Ds, fbk |-> IF fbs # {} THEN fbsel[1] ELSE NOut(r) + 1, dfb |-> Dfb,
-      fbks |-> { x[1] : x \in fbs }]
+      fbks |-> { x[1] : x \in fbs }, fb_other |-> Ecp5FeasJ(d, r, lvl, 2)]
 
 (* -------------------------------------------------------------------- gw5a *)
 (* Gowin GW5A PLLA/PLL: PFD = fin/idiv, VCO = PFD*fdiv*mdiv, out_i = VCO/odiv_i *)
